@@ -19,6 +19,9 @@ CLAIMED = {
  "C01": ("exploration", "deterministic simulation: seeded emitter interleavings (yield stalls), latency/jitter/chunking network, typed-handler delivery oracle keyed by unique emission ids",
          "Real sio server and 1-3 real sio clients over the simulated network on polling / websocket / polling->websocket upgrade, recovery on/off, three buffer limits; up to 8 emitter tasks per run emit events of 12 argument-shape classes and 17 event names with size targets at the 125/126, 32 KiB, 64 KiB and limit boundaries; each emission must reach exactly one handler, the one registered for its name, with equal arguments; any disconnect on the fault-free network is a violation.",
          "§7 C01", TB),
+ "C02": ("exploration", "deterministic simulation: 1-16 emitting goroutines under seeded stalls on the send queue and dispatch code; order observed on the wire by a protocol-level peer (the repository's Engine.IO endpoint + reference decoder) and at handler entry in a sio<->sio rig",
+         "Four worlds per direction and observation point: the library's client emitting to the repository's Engine.IO server under a hand-written Socket.IO decoder (wire order, client to server); the library's server emitting with socket.Emit and namespace broadcasts to the repository's Engine.IO client under the same decoder (wire order, server to client); sio<->sio with order taken at handler entry on the server and on the client. Each on polling, WebSocket and after a completed upgrade. 1-16 goroutines emit bursts of 1-12 events with 0-4 tagged attachments. Oracle: per goroutine the events are observed in emission order; on the wire a binary header announcing n attachments is followed by exactly its own n attachments, in order, before any other frame of the connection; attachments reach the handler with the content they were emitted with; Emit never blocks.",
+         "§7 C02", TB),
  "C03": ("exploration", "deterministic simulation: reply delays placed around the ack time-out incl. exact coincidence on a zero-latency network, offline (buffered) emits, black-holed link, duplicate ACKs from a raw server; callback-counting oracle with measured slack",
          "Real sio server and client, both directions, text and binary (0-3 attachments): peers answer after {0, T-eps, exactly T, T+eps, never}, some call the ack function twice; coincide mode produces the reply exactly T (+-2 ns) after the emit on a zero-latency network; offline mode emits before Connect and connects before or after the time-out; cut mode black-holes the link with acks outstanding; rawdup: a raw WebSocket server sends every ACK 2-3 times. Per callback: at most one entry; with a time-out exactly one, by emit+T+measured slack, carrying the peer's reply (id echoed, payload equal) or ErrAckTimeout with zero values - the reply when it was there clearly in time, the time-out when the peer acked clearly late; afterwards a fresh emit-with-ack on the same socket completes and no Socket.IO-level mutex is left held.",
          "§7 C03", TB),
